@@ -17,7 +17,7 @@ import (
 func TestVerifC19FLP(t *testing.T) {
 	defer vlib.Done()
 	sub := "flp/mhcv"
-	vlib.Check(t, vlib.N(600, 4000), func(t *rapid.T) {
+	vlib.Check(t, vlib.N(600, 2500), func(t *rapid.T) {
 		length := uint(rapid.IntRange(1, 200).Draw(t, "length"))
 		maxW := uint(rapid.IntRange(1, int(length)).Draw(t, "maxw"))
 		if rapid.IntRange(0, 3).Draw(t, "maxw.k") == 0 {
